@@ -148,6 +148,12 @@ class Explorer(object):
             self.add(t <= hi)
         return Z(t)
 
+    def int64(self, name):
+        """a Python int restricted to the int64 range, held as a wide bit-vector (class ZB)."""
+        b = z3.BitVec(name, 64)
+        self.inputs[name] = b           # model value reported as unsigned 64-bit; harness converts
+        return ZB(z3.SignExt(ZB_BITS - 64, b))
+
     def bool(self, name):
         t = z3.Bool(name)
         self.inputs[name] = t
@@ -1280,3 +1286,95 @@ def zt(x):
     if isinstance(x, (float, np.floating, Fraction)):
         return _rterm(_frac(x))
     raise TypeError(type(x))
+
+
+# =====================================================================================
+# ZB: a Python int known to lie in a bounded range, held as a wide (128-bit) signed
+# bit-vector so that it can meet numpy's sized integers without Int<->BV conversions
+# =====================================================================================
+ZB_BITS = 128
+
+
+class ZB(Z):
+    """python int backed by a signed 128-bit vector (harness guarantees no 128-bit overflow:
+    inputs are int64-bounded and pydl only adds/subtracts small constants before converting)."""
+    __slots__ = ()
+
+    def __init__(self, term):
+        if isinstance(term, (int, np.integer)):
+            term = z3.BitVecVal(int(term), ZB_BITS)
+        self.v = term
+
+    def is_concrete(self):
+        return z3.is_bv_value(z3.simplify(self.v))
+
+    def z3(self):
+        return z3.BV2Int(self.v, is_signed=True)
+
+    def concretize(self):
+        val = ctx().concretize(self.v)
+        return val - (1 << ZB_BITS) if val >= (1 << (ZB_BITS - 1)) else val
+
+    @staticmethod
+    def _w(o):
+        if isinstance(o, ZB):
+            return o.v
+        if isinstance(o, Z):
+            if isinstance(o.v, int):
+                return z3.BitVecVal(o.v, ZB_BITS)
+            raise Unsupported('bounded int mixed with unbounded symbolic int')
+        if isinstance(o, (bool, np.bool_, int, np.integer)):
+            return z3.BitVecVal(int(o), ZB_BITS)
+        if isinstance(o, B):
+            return z3.If(o.z3(), z3.BitVecVal(1, ZB_BITS), z3.BitVecVal(0, ZB_BITS))
+        return None
+
+    def _ar(self, o, f, swap=False):
+        if isinstance(o, (float, np.floating, Fraction, R)):
+            raise Unsupported('bounded int in real arithmetic')
+        w = ZB._w(o)
+        if w is None:
+            return NotImplemented
+        return ZB(f(w, self.v) if swap else f(self.v, w))
+
+    def __add__(self, o):
+        return self._ar(o, lambda a, b: a + b)
+    __radd__ = __add__
+
+    def __sub__(self, o):
+        return self._ar(o, lambda a, b: a - b)
+
+    def __rsub__(self, o):
+        return self._ar(o, lambda a, b: a - b, swap=True)
+
+    def __mul__(self, o):
+        return self._ar(o, lambda a, b: a * b)
+    __rmul__ = __mul__
+
+    def __neg__(self):
+        return ZB(-self.v)
+
+    def __abs__(self):
+        return ZB(z3.If(self.v < 0, -self.v, self.v))
+
+    def __floordiv__(self, o):
+        raise Unsupported('floor division of a bounded symbolic int')
+
+    __mod__ = __rfloordiv__ = __rmod__ = __truediv__ = __rtruediv__ = __floordiv__
+
+    def _cmp(self, o, op):
+        w = ZB._w(o)
+        if w is None:
+            return NotImplemented
+        return B(getattr(self.v, op)(w))
+
+    def to_bv(self, dt):
+        """numpy conversion of this Python int to a sized dtype (OverflowError if it does not fit)."""
+        info = np.iinfo(dt)
+        lo, hi = z3.BitVecVal(int(info.min), ZB_BITS), z3.BitVecVal(int(info.max), ZB_BITS)
+        if bool(B(z3.Or(self.v < lo, self.v > hi))):
+            raise OverflowError('Python integer out of bounds for %s' % dt)
+        return BV(z3.Extract(dt.itemsize * 8 - 1, 0, self.v), dt)
+
+    def __repr__(self):
+        return 'ZB(%s)' % (z3.simplify(self.v),)
